@@ -352,6 +352,43 @@ def r5(ctx, fs):
     ctx.instance(rid, [f.id, 'narrowing'], {'excluded_values': fmt_items(its)[:300]})
     if not ok:
         ctx.finding(rid, f.id, 'narrowing', 'formula_statement::execute must exclude (assert !allows) exactly the values of the argument that are not assignable to the parameter type', loc=f.loc)
+    # direction of the per-value test: the PARAMETER type must be assignable from the type of the value (receiver does not depend on the value, the argument does)
+    dir_ok = False
+    for n in f.nodes():
+        if n.get('k') == 'CXXForRangeStmt' and 'alwd' in show(canon(n['slots']['range'], env, subst=False)) or (n.get('k') == 'CXXForRangeStmt' and 'ov_theory::value' in show(canon(n['slots']['range'], env))):
+            lv = n['slots']['var'].get('name')
+            for m in walk(n['slots']['body']):
+                if m.get('k') == 'CXXMemberCallExpr' and m.get('callee_name') == 'ratio::type::is_assignable_from':
+                    c = canon(m, env, subst=False)
+                    recv, arg = show(c[2]), show(c[3])
+                    dir_ok = (' %s)' % lv not in recv + ')' and lv not in recv.split()) and lv in arg.replace('(', ' ').replace(')', ' ').split()
+    ctx.instance(rid, [f.id, 'narrowing-direction'], {'parameter_type_is_assignable_from_value_type': dir_ok})
+    if not dir_ok:
+        ctx.finding(rid, f.id, 'narrowing-direction', 'formula_statement::execute: a value of the argument is kept iff the PARAMETER type is assignable from the type of the value (tt.is_assignable_from(type of value)); '
+                    'the reversed test keeps instances of supertypes of the parameter and drops instances of its subtypes', loc=f.loc)
+    # every argument ends up in the atom: on every non-throwing path of the loop over the written arguments the evaluated expression is stored under the parameter name
+    arg_loops = [n for n in f.nodes() if n.get('k') == 'CXXForRangeStmt' and len(n['slots']['var'].get('bindings') or ()) == 2 and show(canon(n['slots']['range'], env, subst=False)).endswith('formula_statement::assignments')]
+    if len(arg_loops) != 1:
+        raise AnalysisBroken('%s: the loop over the written arguments (assignments) was not found' % f.id)
+    al = arg_loops[0]
+    bname = al['slots']['var']['bindings'][0]
+    n_paths = n_store = 0
+    for p in enum_paths(al['slots']['body']):
+        if p.end == 'throw':
+            continue
+        n_paths += 1
+        stored = False
+        for st in p.stmts:
+            for m in walk(st):
+                if m.get('k') == 'CXXMemberCallExpr' and (m.get('callee_name') or '').endswith('::emplace'):
+                    c = canon(m, env, subst=False)
+                    if isinstance(c, tuple) and len(c) == 5 and c[3] == ('.', bname, 'id') and not isinstance(c[2], tuple):
+                        stored = True
+        n_store += stored
+    ctx.instance(rid, [f.id, 'argument-stored'], {'non_throwing_paths': n_paths, 'paths_storing_the_argument': n_store})
+    if n_paths == 0 or n_store != n_paths:
+        ctx.finding(rid, f.id, 'argument-stored', 'formula_statement::execute: on %d of %d non-throwing paths through the loop over the written arguments the evaluated argument is not stored in the atom: the parameter then '
+                    'becomes a fresh variable unrelated to what was written (the narrowing branch must keep the narrowed variable)' % (n_paths - n_store, n_paths), node=al)
     calls = [canon(n, env, subst=False) for n in f.nodes() if n.get('callee_name') == 'ratio::core::assert_facts']
     okc = len(calls) == 1 and calls[0][-1] == 'not_alwd_vals'
     thr = [n for n in f.nodes() if n.get('k') == 'CXXThrowExpr']
